@@ -283,6 +283,9 @@ func c24Run(c *c24Case) (o c24Obs) {
 		c24Serve(h, "GET /sleep/status HTTP/1.1\r\nHost: agent.local\r\nAuthorization: Bearer "+c24Token+"\r\n\r\n")
 		rec.calls.Store(0)
 		rec.stats.Store(0)
+		rec.mu.Lock()
+		rec.first = ""
+		rec.mu.Unlock()
 	}
 	raw := c24Raw(c)
 	req, w, err := c24Serve(h, raw)
@@ -313,6 +316,9 @@ func c24Run(c *c24Case) (o c24Obs) {
 	rec.mu.Lock()
 	o.firstCall = rec.first
 	rec.mu.Unlock()
+	if o.calls == 0 && o.stats > 0 {
+		o.firstCall = "StatsProvider"
+	}
 	return
 }
 
